@@ -15,6 +15,7 @@ CONSTANTS
   Callers = {"interval"}
   SelMode = "all"
   WithNA = TRUE
+  NAInExpected = TRUE
   ExtraSet <- EX_none
   Export = TRUE
   SampleMod = 1
